@@ -819,6 +819,9 @@ class CallMixin:
             P.axioms.append(f(th.Empty) == B.Empty)
             P.axioms.append(z3.ForAll([x], f(th.Unit(x)) == x, patterns=[f(th.Unit(x))]))
             P.axioms.append(z3.ForAll([a, b], f(th.App(a, b)) == B.App(f(a), f(b)), patterns=[f(th.App(a, b))]))
+            # congruence through extensionality: mentioning Eq(a, b) makes E-matching unfold its definition
+            P.axioms.append(z3.ForAll([a, b], z3.Implies(th.Eq(a, b), f(a) == f(b)),
+                                      patterns=[z3.MultiPattern(f(a), f(b))]))
         return P.funcs[name]
 
     def isinstance_of(self, e, st):
@@ -879,8 +882,40 @@ class CallMixin:
             for o in out[1:]:
                 t = join_types(t, o.t)
             return self.new_list(st, t, [coerce(o, t) for o in out])
-        th, seq, elt, post = self.iter_sequence(src, st, e)
         k = z3.Int(fresh_name("k"))
+        if self.is_range(src) and not gen.ifs:
+            # [f(i) for i in range(lo, hi)] with symbolic bounds (step 1): defined pointwise, length max(hi - lo, 0)
+            _, lo, hi, step = src.z
+            if not (z3.is_int_value(z3.simplify(step)) and z3.simplify(step).as_long() == 1):
+                raise Unsupported("comprehension over a range with step != 1")
+            n = z3.If(hi - lo >= 0, hi - lo, 0)
+            sub = st.copy()
+            sub.frames = st.frames[:-1] + [dict(st.locals)]
+            inrange = z3.And(0 <= k, k < n)
+            sub.pc.append(inrange)
+            self.sinks.append([])
+            try:
+                self.assign(gen.target, V(INT, lo + k), sub, e)
+                val = self.ev(e.elt, sub)
+            finally:
+                raised = self.sinks.pop()
+            for oc in raised:
+                self.sinks[-1].append(oc)
+            hint = getattr(e, "_elt_hint", None)
+            if hint is not None:
+                val = coerce(val, hint)
+            elif isinstance(val.t, TNone):
+                raise Unsupported("comprehension of None needs an element type (annotate the target or declare the field)")
+            rth = seq_theory(val.t)
+            r = z3.Const(fresh_name("comp"), rth.S)
+            vz = box(val)
+            for f in sub.pc[len(st.pc) + 1:]:
+                if z3.is_eq(f) and z3.is_const(f.arg(0)) and f.arg(0).decl().kind() == z3.Z3_OP_UNINTERPRETED:
+                    vz = z3.substitute(vz, (f.arg(0), f.arg(1)))
+            st.pc.append(rth.Len(r) == n)
+            st.pc.append(z3.ForAll([k], z3.Implies(inrange, rth.Idx(r, k) == vz), patterns=[rth.Idx(r, k)]))
+            return self.new_list_from_seq(st, val.t, r)
+        th, seq, elt, post = self.iter_sequence(src, st, e)
         item = unbox(th.Idx(seq, k), elt)
         if post is not None:
             item = post(st, k, item)
